@@ -707,7 +707,7 @@ class Ctx:
         else:
             obj = fld.build(wvec[None, :], with_time=False)
         ws = self.case.get("wstore")
-        if ws:
+        if ws and np.array_equal(wvec, np.rint(wvec)):  # only integer-valued weights are representable in integer storage
             obj = [o.astype(ws) for o in obj] if isinstance(obj, list) else obj.astype(ws)
         order = pres.split("_")[-1]
         if order not in ("rev", "perm"):
